@@ -156,51 +156,67 @@ def check(ctx):
             ctx.ob("C06.c", "switch-path-classified", False, "path does not branch on has_transition's result", es.loc())
 
     # ---- C06.d three-way table of the ordered search -----------------------------------------------
+    # Orderings are abstracted by the set {L,E,G} of outcomes of (token_type ? entry token type) consistent with
+    # the comparisons a path assumed (cmp+match, <, ==, ... are all accepted forms).
+    from .kernel import OUT2SET, FLIP, binop_set
     for pat in (r"CompiledScannerMode::has_transition$",):
         ht = F.fn(pat)
         ctx.analysed_fn(ht)
         ex, paths = run_fn(ht, F, Model())
         table = {}
         for p in paths:
-            nexts = p.calls(r"Iterator>::next$")
-            cmps = [(c, o) for c, o in p.conds if c[0] == "discr" and c[1][0] == "cmp"]
-            if not cmps:
-                # exhausted list
+            got_item = any(e[0] == "call" and re.search(r"Iterator>::next$", e[2]) for e in p.events) and any("item@" in S.fstr(c) for c, o in p.conds)
+            oset = {"L", "E", "G"}
+            unrelated = []
+            itemsym = None
+            for c, o in p.conds:
+                a_ = b_ = None
+                cs = None
+                if c[0] == "discr" and c[1][0] == "cmp":
+                    a_, b_ = c[1][1], c[1][2]
+                    if isinstance(o, tuple):
+                        continue
+                    cs = OUT2SET.get(dict((dv, n) for n, dv in c[2]).get(o))
+                elif c[0] == "binop" and c[1] in ("Lt", "Le", "Gt", "Ge", "Eq", "Ne") and isinstance(o, bool):
+                    a_, b_ = c[2], c[3]
+                    cs = binop_set(c[1], o)
+                if a_ is None or cs is None:
+                    continue
+                sa, sb = S.fstr(a_), S.fstr(b_)
+                ma, mb = re.match(r"(item@bb\d+)\.0$", sa), re.match(r"(item@bb\d+)\.0$", sb)
+                if sa == "token_type" and mb:
+                    oset &= cs
+                    itemsym = mb.group(1)
+                elif sb == "token_type" and ma:
+                    oset &= {FLIP[x] for x in cs}
+                    itemsym = ma.group(1)
+                else:
+                    unrelated.append("%s vs %s" % (sa, sb))
+            for u in unrelated:
+                ctx.ob("C06.d", "cmp-operands", False, "search compares %s (expected the token type with the entry's token type)" % u, ht.loc())
+            if itemsym is None:
                 if p.end[0] == "return":
                     table["exhausted"] = S.vstr(p.end[1])
                     ctx.ob("C06.d", "exhausted->None", variant_of(ex, p, p.end[1]) == "None", "list exhausted returns %s" % S.vstr(p.end[1]), ht.loc())
                 continue
-            (c, o) = cmps[-1]
-            a, b = c[1][1], c[1][2]
-            names = dict((dv, n) for n, dv in c[2])
-            outcome = names.get(o, str(o))
-            sa, sb = S.vstr(a), S.vstr(b)
-            # orientation: token_type (parameter) on the left, the entry's token type (.0 of the item) on the right
-            left_is_param = sa == "token_type"
-            right_is_item0 = re.search(r"item@bb\d+\.0$", sb) is not None
-            left_is_item0 = re.search(r"item@bb\d+\.0$", sa) is not None
-            right_is_param = sb == "token_type"
-            if left_is_item0 and right_is_param:
-                outcome = {"Less": "Greater", "Greater": "Less"}.get(outcome, outcome)
-            elif not (left_is_param and right_is_item0):
-                ctx.ob("C06.d", "cmp-operands", False, "search compares %s with %s (expected the token type with the entry's token type)" % (sa, sb), ht.loc())
-                continue
-            if p.end[0] == "return":
-                r = p.end[1]
-                rv = variant_of(ex, p, r)
-                table[outcome] = S.vstr(r)
-                if outcome == "Less":
-                    ctx.ob("C06.d", "Less->None", rv == "None", "token type below the entry returns %s" % S.vstr(r), ht.loc())
-                elif outcome == "Equal":
-                    ok = rv == "Some" and re.search(r"item@bb\d+\.1$", S.vstr(r[3][0])) is not None and S.vstr(r[3][0]).split(".")[0] == sb.split(".")[0]
-                    ctx.ob("C06.d", "Equal->Some(target of same entry)", bool(ok), "equal token type returns %s" % S.vstr(r), ht.loc())
+            for o_ in sorted(oset):
+                name = {"L": "Less", "E": "Equal", "G": "Greater"}[o_]
+                if p.end[0] == "return":
+                    r = p.end[1]
+                    rv = variant_of(ex, p, r)
+                    table[name] = S.vstr(r)
+                    if o_ == "L":
+                        ctx.ob("C06.d", "Less->None", rv == "None", "token type below the entry returns %s (sorted list: no later entry can match)" % S.vstr(r), ht.loc())
+                    elif o_ == "E":
+                        ok = rv == "Some" and S.fstr(r[3][0]) == itemsym + ".1"
+                        ctx.ob("C06.d", "Equal->Some(target of same entry)", bool(ok), "equal token type returns %s" % S.vstr(r), ht.loc())
+                    else:
+                        ctx.ob("C06.d", "Greater->continue", False, "token type above the entry returns %s instead of continuing" % S.vstr(r), ht.loc())
+                elif p.end[0] == "cut":
+                    table[name] = "continue"
+                    ctx.ob("C06.d", name + "->continue", o_ == "G", "search continues when the token type is %s than the entry" % name, ht.loc())
                 else:
-                    ctx.ob("C06.d", "Greater->continue", False, "token type above the entry returns %s instead of continuing" % S.vstr(r), ht.loc())
-            elif p.end[0] == "cut":
-                table[outcome] = "continue"
-                ctx.ob("C06.d", outcome + "->continue", outcome == "Greater", "search continues when the token type is %s than the entry" % outcome, ht.loc())
-            else:
-                ctx.ob("C06.d", "path-end", False, "unexpected path end %s" % (p.end,), ht.loc())
+                    ctx.ob("C06.d", "path-end", False, "unexpected path end %s" % (p.end,), ht.loc())
         ctx.ob("C06.d", "table-complete", set(table) >= {"exhausted", "Less", "Equal", "Greater"}, "table rows: %s" % table, ht.loc())
         ctx.sample({"rule": "C06.d", "has_transition_table": table})
     # the iterator ranges over self.transitions without adapters
